@@ -28,3 +28,7 @@ pub fn unhexlist(s: &str) -> Option<Vec<Vec<u8>>> {
     if s == "-" { return Some(vec![]); }
     s.split(',').map(unhex).collect()
 }
+
+/// pick one element of a literal array (elements may themselves draw from the rng)
+#[macro_export]
+macro_rules! pk { ($rng:expr, [$($x:expr),* $(,)?]) => {{ let arr = [$($x),*]; let i = rand::Rng::gen_range($rng, 0..arr.len()); arr[i].clone() }} }
